@@ -224,6 +224,7 @@ def handleC19 (cmd : String) (args : List Sexp) : Option Sexp :=
       let sdv := if i' < sd then sd - 1 else sd
       let lops := ops.filterMap (fun n => match n with
         | .mul2 | .add1 | .neg | .clone => n.simpleOp.map LOp.derive
+        | .setMul3 a b => some (LOp.getSet (opSetMul3 a b))
         | .setConst => some (LOp.setConst "c" (if i' = sd then arangeT 100000 (pb ++ [2])
                                                 else ⟨pb ++ [2], (arangeT 100000 (pb ++ [2])).get⟩))
         | _ => none)
